@@ -34,6 +34,15 @@ Theorem C10_exp_position_last_assigned : forall c ops a,
 Proof. exact exp_position_last_assigned. Qed.
 Print Assumptions C10_exp_position_last_assigned.
 
+(* ... made explicit: deleting from the history every operation that does not name the agent (other agents added,
+   moved, removed; every query) and changing the initial capacity leaves the reported position unchanged *)
+Theorem C10_exp_position_independent : forall c c' ops a,
+  ec_bounds c' = ec_bounds c -> ec_torus c' = ec_torus c ->
+  e_getpos (e_final c (e_init c) ops) a
+  = e_getpos (e_final c' (e_init c') (filter (e_names a) ops)) a.
+Proof. exact exp_position_independent. Qed.
+Print Assumptions C10_exp_position_independent.
+
 (* space.agents is exactly the set of agents added and not removed, each once *)
 Theorem C10_exp_agents_exact : forall c ops a,
   NoDup (e_active (e_final c (e_init c) ops)) /\
@@ -140,6 +149,11 @@ Theorem C10_legacy_position_last_assigned : forall c ops a,
   aget a (l_pos (l_final c l_init ops)) = fold_left (l_track c a) ops None.
 Proof. exact legacy_position_last_assigned. Qed.
 Print Assumptions C10_legacy_position_last_assigned.
+
+Theorem C10_legacy_position_independent : forall c ops a,
+  aget a (l_pos (l_final c l_init ops)) = aget a (l_pos (l_final c l_init (filter (l_names a) ops))).
+Proof. exact legacy_position_independent. Qed.
+Print Assumptions C10_legacy_position_independent.
 
 Theorem C10_legacy_agents_exact : forall c ops a,
   NoDup (akeys (l_a2i (l_final c l_init ops))) /\
@@ -270,6 +284,13 @@ Example C10_exp_example :
   length (e_store s) = 3%nat /\
   nth 3 (e_run (ex_cfg 0) (e_init (ex_cfg 0)) ex_ops) [] = [1; 0; 2; 784; -9; 3; 3; 1; 0; 16; 2; 36; 16; 3; 32; 48] /\
   nth 7 (e_run (ex_cfg 0) (e_init (ex_cfg 0)) ex_ops) [] = [1; 0; 3; 800; -9; 3; 3; 1; 12; 28; 3; 32; 48; 4; 44; 6].
+Proof. vm_compute. repeat split; reflexivity. Qed.
+
+(* the same agent 4 in the 10-operation history from capacity 0 and in its 1-operation projection from capacity 100 *)
+Example C10_exp_independent_example :
+  filter (e_names 4) ex_ops = [EAdd 4 [-20; 70]] /\
+  e_getpos (e_final (ex_cfg 0) (e_init (ex_cfg 0)) ex_ops) 4 = Some [44; 6] /\
+  e_getpos (e_final (ex_cfg 100) (e_init (ex_cfg 100)) (filter (e_names 4) ex_ops)) 4 = Some [44; 6].
 Proof. vm_compute. repeat split; reflexivity. Qed.
 
 (* an accepted and a refused k-nearest outcome (agent 3 is nearer than agent 4) *)
